@@ -582,3 +582,9 @@ Proof.
 Qed.
 
 End Corollaries.
+
+(* handler_thread's catch-all: whatever escaped service() becomes a log record *)
+Lemma handler_thread_total cap lower c r a disc :
+  handler_thread cap lower c r a disc
+  = (channel_service cap lower c r a disc, o_escaped (channel_service cap lower c r a disc)).
+Proof. reflexivity. Qed.
